@@ -195,6 +195,23 @@ def run(run):
                 run.violation('id/%s' % name, 'packet id differs from the '
                               'published id', {'pv': pv, 'tree': got_id,
                                                'documented': doc_id})
+            # the reader finds a class by id: at the published id the core
+            # class must be the only claimant of its table (otherwise which
+            # class decodes the packet depends on set iteration order)
+            claimants = []
+            for k2 in mod.get_packets(ctx):
+                try:
+                    if k2.get_id(ctx) == doc_id:
+                        claimants.append(k2.__name__)
+                except Exception:
+                    pass
+            run.count('decode_slots_checked')
+            if sorted(claimants) != [cls_name]:
+                run.violation('decode-slot/%s' % name, 'at the published id of'
+                              ' a core packet the state table offers other '
+                              'classes than the core class', {
+                                  'pv': pv, 'id': doc_id,
+                                  'claimants': sorted(claimants)})
             for rep in range(reps if fields else 1):
                 values = {f: gen_value(rng, name, f, code, pv, docs)
                           for f, code in fields}
